@@ -14,10 +14,18 @@ func generate(tier string, r *rng.R) []fw.Case {
 	}
 	var cs []fw.Case
 	for i := 0; i < n; i++ {
-		if i%5 == 4 {
+		switch {
+		case i%5 == 4:
 			// teardowns that end a run (or not): every state, leave_<state> / DESTROY hooks of every kind and outcome
 			cs = append(cs, envh.GenTeardownCase(r.Fork()))
-		} else {
+		case i%5 == 2:
+			// a task-manager command round trip fails inside a transition (REAL bodies), then the run is closed some way
+			cs = append(cs, envh.GenBodyFailureCase(r.Fork()))
+		case i%2 == 0:
+			// the same walk with the REAL task-level bodies of CONFIGURE / START / STOP / RESET
+			f := r.Fork()
+			cs = append(cs, envh.WithRealBodies(envh.GenCase(f, profile), f))
+		default:
 			cs = append(cs, envh.GenCase(r.Fork(), profile))
 		}
 	}
@@ -36,13 +44,13 @@ func init() {
 		Setup:      envh.Setup,
 		Teardown:   envh.Teardown,
 		TrustedBase: []string{
-			"harness/envh: environment builder (YAML roles, NewTaskForVerif tasks), probe plugin (verifprobe.Probe), event capture, fake task manager answering ReleaseTasks",
+			"harness/envh: environment builder (YAML roles, NewTaskForVerif tasks), probe plugin (verifprobe.Probe), event capture, fake task manager answering ReleaseTasks and - for TR/CR requests - the ConfigureTasks/TransitionTasks command of the REAL transition bodies with a TasksStateChangedEvent through the environment manager's event loop",
 			"verif hooks in /repo: core/environment/verif_hooks.go, core/workflow/verif_hooks.go, core/the/verif_hooks.go, core/task/verif_hooks_task.go",
 			"trace monitor (lean/ControlModel/Spec/EnvTrace.lean): probe calls are judged by windows and happens-before, not by exact position",
 		},
 		Assumptions: []string{
 			"looplab/fsm v1.0.1 Event/Cancel semantics as modelled (sampled by every case)",
-			"scripted task-level bodies stand in for the real transition bodies; task hooks are answered by the harness (BasicTaskTerminated with exit code) through a blocking delivery hook",
+			"T/C requests and DEPLOY/EXIT/RECOVER/GO_ERROR always: scripted task-level bodies stand in for the real transition bodies (what they replicate is pinned by C10_transition_bodies_are_code, go/ast over core/environment/transition_*.go); TR/CR requests run the real bodies of CONFIGURE/START_ACTIVITY/STOP_ACTIVITY/RESET, only the task manager's answer is scripted; not run: a real body after a teardown attempt (stateChangedCh closed); task hooks are answered by the harness (BasicTaskTerminated with exit code) through a blocking delivery hook",
 			"goroutine scheduling of call hooks is arbitrary; the harness paces time.Now() reads so that distinct stamps differ",
 		},
 	})
